@@ -2031,3 +2031,112 @@ Example match_iff_flat_base_nontrivial :
   wf_tree rs = true /\ wf_routes rs = true /\ known_class (Some b) rs p = false
   /\ matches (Some b) rs p = true /\ flat_any (Some b) rs p = true.
 Proof. vm_compute. repeat split; reflexivity. Qed.
+
+(** ================================================================================
+    Declaration order at the level of the table: the parameters returned are those of
+    the FIRST generated flat route that matches the path
+    ================================================================================ *)
+Lemma first_chain_first : forall Ls p ps rem,
+  first_chain Ls p = OYes ps rem ->
+  exists pre L post m,
+    Ls = pre ++ L :: post
+    /\ Forall (fun L0 => good p L0 = false \/ seqT (map seg_test L0) p = TPanic) pre
+    /\ seqT (map seg_test L) p = TSome m rem ps /\ rem_ok rem = true.
+Proof.
+  induction Ls as [|L Ls IH]; intros p ps rem H; cbn [first_chain] in H; [discriminate|].
+  destruct (seqT (map seg_test L) p) as [| |m r ps1] eqn:E; try discriminate.
+  - apply IH in H. destruct H as (pre & L0 & post & m0 & -> & Hpre & Hm & Hr).
+    exists (L :: pre), L0, post, m0. repeat split; auto.
+    constructor; [|exact Hpre]. left. unfold good. now rewrite E.
+  - destruct (rem_ok r) eqn:Er.
+    + inversion H; subst. exists [], L, Ls, m. repeat split; auto.
+    + apply IH in H. destruct H as (pre & L0 & post & m0 & -> & Hpre & Hm & Hr).
+      exists (L :: pre), L0, post, m0. repeat split; auto.
+      constructor; [|exact Hpre]. left. unfold good. now rewrite E.
+Qed.
+
+Theorem first_flat_route_wins :
+  forall rs p ch ps,
+    wf_tree rs = true -> wf_routes rs = true -> starts_with_slash p = true ->
+    known_class None rs p = false ->
+    match_route None rs p = MYes ch ps ->
+    exists pre f post r,
+      gen_routes rs = pre ++ f :: post
+      /\ Forall (fun g => flat_good p g = false) pre
+      /\ spre (toks f) p = Some (ps, r) /\ rem_ok r = true.
+Proof.
+  intros rs p ch ps Hwt Hwf Hsl Hk Hm.
+  unfold known_class in Hk.
+  apply orb_false_iff in Hk. destruct Hk as [Hk Hds].
+  apply orb_false_iff in Hk. destruct Hk as [Hk Hopt].
+  apply orb_false_iff in Hk. destruct Hk as [Hkb Hss].
+  unfold k_boundary in Hkb. unfold k_slash_static in Hss. rewrite orb_false_r in Hss.
+  assert (Hopt' := Hopt). unfold k_optional in Hopt'.
+  change (fun x : pseg => match x with POpt _ => true | _ => false end) with is_popt in Hopt'.
+  assert (Hplain : forallb plain_route rs = true).
+  { unfold gen_routes in Hopt'. apply existsb_flat_map_false in Hopt'.
+    unfold wf_tree in Hwt. clear -Hopt' Hwt.
+    induction rs as [|r rs IH]; [reflexivity|]. cbn [forallb] in *.
+    apply andb_prop in Hwt. destruct Hwt as [Hr Hrs]. inversion Hopt'; subst.
+    rewrite plain_from_flat, IH; auto. }
+  pose proof (siblings_chains rs Hplain 0%nat p) as Hsib.
+  assert (Hchain : forall L, In L (chains rs) ->
+            tproj (seqT (map seg_test L) p) = Some (spre (toks (flat_map gen_path L)) p)).
+  { intros L HL.
+    assert (Hin : In (flat_map gen_path L) (gen_routes rs))
+      by (rewrite gen_routes_chains; now apply in_map).
+    apply (chain_spre (cores_of None rs)).
+    - apply tame_from_flat.
+      + eapply chains_leaves; eauto.
+      + eapply existsb_false_in; eauto.
+      + unfold wf_routes in Hwf. rewrite forallb_forall in Hwf. now apply Hwf.
+      + eapply existsb_false_in; eauto.
+    - now apply cores_from_flat.
+    - split; [|exact Hkb]. destruct p; [discriminate|exact Hsl]. }
+  unfold match_route, strip_base in Hm.
+  destruct (match_siblings rs 0 p) as [| |ch1 ps1 rem] eqn:Em; try discriminate.
+  destruct (rem_ok rem) eqn:Er; [|discriminate]. inversion Hm; subst.
+  cbn [oproj] in Hsib. symmetry in Hsib. apply first_chain_first in Hsib.
+  destruct Hsib as (pre & L & post & m & Hls & Hpre & HS & _).
+  exists (map (flat_map gen_path) pre), (flat_map gen_path L), (map (flat_map gen_path) post), rem.
+  split; [rewrite gen_routes_chains, Hls, map_app; reflexivity|].
+  split.
+  - apply Forall_forall. intros g Hg. apply in_map_iff in Hg. destruct Hg as (L0 & <- & HL0).
+    rewrite Forall_forall in Hpre. specialize (Hpre L0 HL0).
+    assert (HinL0 : In L0 (chains rs)) by (rewrite Hls; apply in_or_app; now left).
+    specialize (Hchain L0 HinL0). unfold flat_good.
+    destruct Hpre as [Hg|Hp]; [|rewrite Hp in Hchain; discriminate].
+    unfold good in Hg.
+    destruct (seqT (map seg_test L0) p) as [| |m0 r0 ps0]; cbn [tproj] in Hchain.
+    + injection Hchain as <-. reflexivity.
+    + discriminate.
+    + injection Hchain as <-. exact Hg.
+  - assert (HinL : In L (chains rs)) by (rewrite Hls; apply in_or_app; right; now left).
+    specialize (Hchain L HinL). rewrite HS in Hchain. cbn [tproj] in Hchain.
+    injection Hchain as <-. split; [reflexivity|exact Er].
+Qed.
+
+(** ---- expand_optionals: no optional survives, and every optional is decided both ways ---- *)
+Fixpoint count_popt (f : list pseg) : nat :=
+  match f with
+  | [] => 0%nat
+  | POpt _ :: t => S (count_popt t)
+  | _ :: t => count_popt t
+  end.
+
+Theorem expand_optionals_spec :
+  forall f, Forall (fun e => existsb is_popt e = false) (expand_optionals f)
+            /\ length (expand_optionals f) = (2 ^ count_popt f)%nat.
+Proof.
+  induction f as [|x f [IH1 IH2]]; [split; [repeat constructor|reflexivity]|].
+  assert (Hmap : forall y, is_popt y = false ->
+            Forall (fun e => existsb is_popt e = false) (map (cons y) (expand_optionals f))).
+  { intros y Hy. apply Forall_forall. intros e He. apply in_map_iff in He.
+    destruct He as (e0 & <- & He0). rewrite Forall_forall in IH1. cbn [existsb].
+    now rewrite Hy, (IH1 _ He0). }
+  destruct x; cbn [expand_optionals count_popt];
+    try (split; [now apply Hmap|now rewrite map_length]).
+  split.
+  - apply Forall_app. split; [now apply Hmap|exact IH1].
+  - rewrite app_length, map_length, IH2. cbn [Nat.pow]. lia.
+Qed.
